@@ -1058,6 +1058,8 @@ def subst_stmts(stmts, env, macros):
         elif k == "wait": out.append(("wait", subst_pat(s[1], env)))
         elif k == "append": out.append(("append", nm(s[1]), subst_pat(s[2], env)))
         elif k == "appc": out.append(("appc", nm(s[1]), subst_expr(s[2], env)))
+        elif k == "assign" and s[2][0] == "pexpr" and env[s[2][1]][0] == "id":
+            out.append(("assign", nm(s[1]), ("enumv", env[s[2][1]][1])))      # `o = v;` with v bound to a bare name (an enumeration constant)
         elif k == "assign": out.append(("assign", nm(s[1]), subst_expr(s[2], env)))
         elif k == "assigns": out.append(("assigns", nm(s[1]), s[2]))
         elif k == "delete": out.append(("delete", nm(s[1])))
@@ -1079,7 +1081,8 @@ def subst_stmts(stmts, env, macros):
 def gen_macro_program(rng, capture=False):
     """returns (source with macros, source hand-inlined, description)"""
     outs = [{"type": "int", "name": "n0", "default": None}, {"type": "int", "name": "n1", "default": 3},
-            {"type": "str", "name": "s0", "size": 8, "null": True, "default": None}]
+            {"type": "str", "name": "s0", "size": 8, "null": True, "default": None},
+            {"type": "enum", "name": "en", "values": ["EA", "EB", "EC"]}]
     hooks, fcodes, ycodes = ["h0", "h1"], ["F0", "F1"], ["Y0", "Y1"]
     lit = lambda: ("lit", bytes(rng.choice(b"abcdefgh") for _ in range(rng.randint(1, 3))))
     delim = lambda: ("lit", bytes([rng.choice(b";,:!#")]))
@@ -1094,6 +1097,9 @@ def gen_macro_program(rng, capture=False):
     add("m_fin", [("finishcode", "c"), ("match", "w")], [("match", ("pmatch", "w")), ("finish", "c")])
     add("m_brk", [("loop", "tgt"), ("match", "w")], [("match", ("pmatch", "w")), ("break", "tgt")])
     add("m_zero", [], [("match", delim()), ("assign", "n0", ("num", 7))])
+    # an enumeration constant handed through an expr parameter (directly and forwarded under another name) into `o = v;`
+    add("m_enum", [("out", "o"), ("expr", "v")], [("assign", "o", ("pexpr", "v"))])
+    add("m_enum2", [("out", "o2"), ("expr", "v2")], [("match", delim()), ("call", "m_enum", [("id", "o2"), ("id", "v2")])])
     add("m_mac", [("macro", "mm"), ("hook", "h")], [("call", "mm", []), ("hook", "h")])
     # (parameter names differ from the callees' so that no late-bound argument is captured; the capture case is generated separately)
     add("m_nest", [("out", "o2"), ("match", "w2"), ("expr", "e2")], [("call", "m_app", [("pat", ("pmatch", "w2")), ("id", "s0")]), ("call", "m_set", [("id", "o2"), ("expr", ("bin", "+", ("pexpr", "e2"), ("num", 2)))])])
@@ -1109,7 +1115,7 @@ def gen_macro_program(rng, capture=False):
         add("m_cap_out", [("expr", "e")], [("call", "m_cap_in", [("expr", ("pexpr", "e"))])])
     body = []
     use_yield = rng.random() < 0.3
-    calls = ["m_set", "m_set2", "m_app", "m_hook", "m_zero", "m_mac", "m_nest", "m_each", "m_swap", "m_hswap"] + (["m_yield"] if use_yield else [])
+    calls = ["m_set", "m_set2", "m_app", "m_hook", "m_zero", "m_mac", "m_nest", "m_each", "m_swap", "m_hswap", "m_enum", "m_enum2"] + (["m_yield"] if use_yield else [])
     for _ in range(rng.randint(2, 4)):
         c = rng.choice(calls)
         e = rng.choice([("num", rng.choice([1, 5, 40])), ("bin", "*", ("var", "n1"), ("num", 2)), ("var", "n1"), ("bin", "+", ("var", "n0"), ("var", "n1"))])
@@ -1118,6 +1124,7 @@ def gen_macro_program(rng, capture=False):
         elif c == "m_app": body.append(("call", c, [("pat", w), ("id", "s0")])); body.append(("match", delim()))
         elif c == "m_hook": body.append(("call", c, [("id", rng.choice(hooks)), ("pat", lit())]))
         elif c == "m_zero": body.append(("call", c, []))
+        elif c in ("m_enum", "m_enum2"): body.append(("call", c, [("id", "en"), ("id", rng.choice(["EA", "EB", "EC"]))])); body.append(("match", delim()))
         elif c == "m_mac": body.append(("call", c, [("id", "m_zero"), ("id", rng.choice(hooks))]))
         elif c == "m_nest": body.append(("call", c, [("id", "n1"), ("pat", w), ("expr", e)])); body.append(("match", delim()))
         elif c == "m_each": body.append(("call", c, [("id", "n0"), ("pat", ("re", ("plus", ("cls", "\\d"))))])); body.append(("match", delim()))
@@ -1562,6 +1569,52 @@ parser {
 }
 '''),
 ]
+# a conditional break on a consuming transition whose nominal target looks at no byte: the state the break leaves for must
+# dispatch on the NEXT byte (a stale copy of the current one would be chunking-dependent)
+FEATURE_PROGRAMS.append(("feat-break-then-any", r'''out int n = 0;
+out int r = 0;
+hook hk;
+parser {
+    loop {
+        /[a-z]/;
+        if n == 2 {
+            break;
+        }
+        n = [n + 1];
+        /./;
+    }
+    hk();
+    case {
+        "x" -> { r = 1; }
+        "y", "cz" -> { r = 2; }
+    }
+    "!";
+}
+'''))
+# bytes >= 0x80 stored in a string and read back through an index: the value is 128..255 whatever the element type of the buffer
+FEATURE_PROGRAMS.append(("feat-index-high-byte", r'''out str[8] buf;
+out int first = 0;
+out int{size 2} sum = 0;
+hook high;
+parser {
+    buf += /[^;]+/;
+    ";";
+    first = [buf[0]];
+    sum = [buf[0] + buf[1] * 2];
+    if buf[0] >= 128 {
+        high();
+        "H";
+    }
+    else {
+        "L";
+    }
+}
+'''))
+# directed inputs for feature programs whose interesting path depends on data (used next to the random walks)
+FEATURE_INPUTS = {"feat-break-then-any": [b"a.b.cx!", b"a.b.cy!", b"a.b.ccz!", b"a.b.c!", b"azb.cx!"],
+                  "feat-empty-literal": [b"abc,;xy\n", b"abc,;\n"],
+                  "feat-index-high-byte": [b"\xc3\xa9;H", b"\xc3\xa9;L", b"\x80\xff;H", b"\xff;H", b"ab;L", b"\x7f\x80;L"],
+                  "feat-mixed-else": [b"v=a b;xbz\n", b"v=ab;abx\n"]}
 # more than 256 emitted states at -O0 (unreachable ones are numbered too), fewer than 256 reachable: the width of the state field
 FEATURE_PROGRAMS.append(("feat-many-states", "out int n = 0;\nhook tick;\nmacro item() {\n    case {\n        \"a\" -> { \"1\"; }\n        \"b\" -> { }\n    }\n"
                          "    n = [n + 1];\n    tick();\n}\nparser {\n" + "    item();\n" * 60 + "    \"END\";\n}\n"))
